@@ -403,6 +403,24 @@ pub fn run_property<P: Property>(p: &P, opts: &RunOpts) -> RunSummary {
         println!("  message: {}", v.message);
         exit = 1;
     }
+    // further violations (other shards): replay files are written for each distinct signature
+    {
+        let mut seen: HashSet<String> = HashSet::new();
+        if let Some(f) = a.violations.first() {
+            seen.insert(f.1.signature.clone());
+        }
+        for (_, v, case_json, path) in a.violations.iter_mut().skip(1) {
+            if !seen.insert(v.signature.clone()) {
+                continue;
+            }
+            if path.is_empty() {
+                let mut cj = case_json.clone();
+                let dbg = cj.as_object_mut().and_then(|o| o.remove("__debug")).and_then(|d| d.as_str().map(|s| s.to_string())).unwrap_or_default();
+                *path = write_replay_json(p.id(), &cj, v, &dbg);
+            }
+            println!("  also: signature {} replay={}", v.signature, path);
+        }
+    }
     let mut missing = vec![];
     for c in p.required_classes() {
         if a.classes.get(c).cloned().unwrap_or(0) == 0 {
